@@ -3,6 +3,7 @@ import Nstd.Codec.LemmasValid
 import Nstd.Codec.LemmasStr
 import Nstd.Codec.LemmasB64
 import Nstd.Codec.LemmasInt
+import Nstd.Codec.LemmasNum
 /-!
   Property C18 — text codecs and numeric conversions are exact inverses and bounds-safe.
   Only the property theorems (and non-vacuity examples); every `theorem` here is an
@@ -203,29 +204,30 @@ theorem decimal_text_value (n : Nat) : Spec.decimalValue (decDigits n) = n := by
 /-- `toInt(fromInt(v)) = v` for every `int` -/
 theorem int_roundtrip_int (v : Int) (h1 : -2147483648 ≤ v) (h2 : v ≤ 2147483647) : toInt (fromInt v) = v := by
   unfold toInt fromInt atoi strtol
-  rw [printf_eq, strtoll_fmt v (by omega) (by omega)]
+  rw [printf_eq, cstr_fmtSigned, strtoll_fmt v (by omega) (by omega)]
   unfold wrapInt32
   omega
 
 /-- `toUInt(fromUInt(v)) = v` for every `uint` -/
 theorem int_roundtrip_uint (v : Nat) (h : v ≤ 4294967295) : toUInt (fromUInt v) = v := by
   unfold toUInt fromUInt strtoul
-  rw [printf_eq, strtoull_dec v (by omega)]
+  rw [printf_eq, cstr_decDigits, strtoull_dec v (by omega)]
   omega
 
 /-- `toInt64(fromInt64(v)) = v` for every `int64` -/
 theorem int_roundtrip_int64 (v : Int) (h1 : -9223372036854775808 ≤ v) (h2 : v ≤ 9223372036854775807) :
     toInt64 (fromInt64 v) = v := by
   unfold toInt64 fromInt64 atoll
-  rw [printf_eq, strtoll_fmt v h1 h2]
+  rw [printf_eq, cstr_fmtSigned, strtoll_fmt v h1 h2]
 
 /-- `toUInt64(fromUInt64(v)) = v` for every `uint64` -/
 theorem int_roundtrip_uint64 (v : Nat) (h : v ≤ 18446744073709551615) : toUInt64 (fromUInt64 v) = v := by
   unfold toUInt64 fromUInt64
-  rw [printf_eq, strtoull_dec v h]
+  rw [printf_eq, cstr_decDigits, strtoull_dec v h]
 
 example : fromInt (-2147483648) = [45, 50, 49, 52, 55, 52, 56, 51, 54, 52, 56] := by
   simp [fromInt, printf_eq, fmtSigned, decDigits]
+example : toInt [45, 50, 49, 52, 55, 52, 56, 51, 54, 52, 56] = -2147483648 := by decide
 
 /-! ## parsing arbitrary numerals: white space, optional sign, digits (leading zeros allowed), junk -/
 
@@ -238,7 +240,9 @@ theorem parse_unsigned (ws sign ds junk : List Nat) (hws : ∀ c ∈ ws, isSpace
       toUInt64 (ws ++ (sign ++ (ds ++ junk))) = Spec.decimalValue ds) ∧
     (Spec.decimalValue ds ≤ 4294967295 →
       toUInt (ws ++ (sign ++ (ds ++ junk))) = Spec.decimalValue ds) := by
-  have hm := strtoMag_numeral ws sign ds junk hws (by rcases hsign with h | h <;> simp [h]) hds hne hj
+  have hsign' : sign = [] ∨ sign = [43] ∨ sign = [45] := by rcases hsign with h | h <;> simp [h]
+  have hm := strtoMag_numeral ws sign ds (cstr junk) hws hsign' hds hne (cstr_junk junk hj)
+  rw [← cstr_numeral ws sign ds junk hws hsign' hds] at hm
   have hneg : decide (sign = [45]) = false := by rcases hsign with h | h <;> simp [h]
   rw [hneg] at hm
   constructor
@@ -262,9 +266,10 @@ theorem parse_signed (ws sign ds junk : List Nat) (hws : ∀ c ∈ ws, isSpace c
     (hv : v = if sign = [45] then -(Spec.decimalValue ds : Int) else (Spec.decimalValue ds : Int)) :
     (-9223372036854775808 ≤ v ∧ v ≤ 9223372036854775807 → toInt64 (ws ++ (sign ++ (ds ++ junk))) = v) ∧
     (-2147483648 ≤ v ∧ v ≤ 2147483647 → toInt (ws ++ (sign ++ (ds ++ junk))) = v) := by
-  have hm := strtoMag_numeral ws sign ds junk hws hsign hds hne hj
+  have hm := strtoMag_numeral ws sign ds (cstr junk) hws hsign hds hne (cstr_junk junk hj)
+  rw [← cstr_numeral ws sign ds junk hws hsign hds] at hm
   have key : -9223372036854775808 ≤ v ∧ v ≤ 9223372036854775807 →
-      strtoll (ws ++ (sign ++ (ds ++ junk))) = v := by
+      strtoll (cstr (ws ++ (sign ++ (ds ++ junk)))) = v := by
     intro h
     unfold strtoll
     rw [hm]
